@@ -7,6 +7,7 @@ import (
 	"log/slog"
 	"runtime"
 	"strings"
+	"time"
 
 	vrt "go.uber.org/zap/internal/vrt"
 	"go.uber.org/zap/zapcore"
@@ -52,6 +53,59 @@ func VC15SlogSkip() {
 	vrt.Observe("stack-starts-at-site", strings.HasPrefix(e.Stack, fn+"\n"))
 	vrt.Assert("stack-shifted-outward-by-the-configured-skip", strings.HasPrefix(e.Stack, fn+"\n"))
 	vrt.Assert("skipped-helper-not-in-the-stack", !strings.Contains(e.Stack, "zapslog.vSlogHelper"))
+	// the caller annotation is the call site slog recorded (inside the helper), whatever the stack settings
+	vrt.Observe("caller-fn", e.Caller.Function)
+	vrt.Assert("caller-is-the-call-site-slog-recorded", e.Caller.Defined && strings.HasSuffix(e.Caller.Function, "zapslog.vSlogHelper"))
+}
+
+// vSlogByHand is the wrapper pattern of the log/slog documentation: the record is built by hand with a
+// program counter of the wrapper's choosing and handed to the handler directly.
+func vSlogByHand(h slog.Handler, lvl slog.Level) (file string, line int, fn string) {
+	var pcs [1]uintptr
+	var pc uintptr
+	pc, file, line, _ = runtime.Caller(0); runtime.Callers(1, pcs[:])
+	r := slog.NewRecord(time.Unix(1, 0), lvl, "m", pcs[0])
+	_ = h.Handle(context.Background(), r)
+	return file, line, runtime.FuncForPC(pc).Name()
+}
+
+func vDeep15(n int, f func()) {
+	if n == 0 {
+		f()
+		return
+	}
+	vDeep15(n-1, f)
+}
+
+//verif: prop=C15 bounds="a record built by hand (program counter taken with runtime.Callers by a wrapper) handed straight to Handle, at Info and at Error (stack attached), handler plain or derived, caller skip 0 or 1: the caller is the position the record carries, not a position derived from the handler's own stack"
+func VC15SlogRecord() {
+	core := vNewRecCore(zapcore.DebugLevel)
+	opts := []HandlerOption{WithCaller(true), AddStacktraceAt(slog.LevelError)}
+	if vrt.Choice("skip", 2) == 1 {
+		opts = append(opts, WithCallerSkip(1))
+	}
+	var h slog.Handler = NewHandler(core, opts...)
+	switch vrt.Choice("derive", 3) {
+	case 1:
+		h = h.WithGroup("g")
+	case 2:
+		h = h.WithAttrs([]slog.Attr{slog.Int("a", 1)})
+	}
+	lvl := []slog.Level{slog.LevelInfo, slog.LevelError}[vrt.Choice("level", 2)]
+	// a few frames between the harness and the wrapper, so that the handler's fixed skip of 3 frames leaves
+	// something on the stack in the executor as it does under the test runner
+	var file, fn string
+	var line int
+	vDeep15(4, func() { file, line, fn = vSlogByHand(h, lvl) })
+	if len(*core.writes) != 1 {
+		vrt.Fail("one-entry")
+		return
+	}
+	e := (*core.writes)[0].ent
+	vrt.Observe("caller-line", e.Caller.Line)
+	vrt.Observe("caller-fn", e.Caller.Function)
+	vrt.Assert("caller-is-the-call-site-slog-recorded", e.Caller.Defined && e.Caller.File == file && e.Caller.Line == line && e.Caller.Function == fn)
+	vrt.Assert("stack-attached-exactly-for-configured-levels", (e.Stack != "") == (lvl >= slog.LevelError))
 }
 
 //verif: prop=C15 bounds="slog handler with WithCaller on/off, after 0..1 WithGroup/WithAttrs derivation, record level in {Info, Error}: the caller is the call site slog recorded (the record's PC), defined exactly when caller annotation is on; a stack is attached exactly from the configured slog level up; modelled runtime"
